@@ -93,10 +93,13 @@ MUTATORS = {'append', 'extend', 'insert', 'pop', 'remove', 'clear', 'sort', 'rev
 
 
 class Enumerator:
-    def __init__(self, global_names=()):
+    def __init__(self, global_names=(), helpers=None):
         self.npaths = 0
         self.loop_ids = itertools.count(1)
         self.global_names = set(global_names)
+        self.local_defs = {}            # name -> FunctionDef of helpers defined inside the function
+        self.helpers = dict(helpers or {})   # module-level helper functions that may be inlined
+        self.inline_depth = 0
 
     # ---- terms
     def val(self, e, env):
@@ -201,6 +204,9 @@ class Enumerator:
             if isinstance(n, ast.Call) and isinstance(n.func, ast.Attribute) \
                     and n.func.attr in MUTATORS and isinstance(n.func.value, ast.Name):
                 out.add(n.func.value.id)
+            if isinstance(n, ast.Attribute) and n.attr in MUTATORS and isinstance(n.value, ast.Name) \
+                    and isinstance(n.ctx, ast.Load):
+                out.add(n.value.id)
             if isinstance(n, (ast.Subscript, ast.Attribute)) and isinstance(n.ctx, (ast.Store, ast.Del)) \
                     and isinstance(n.value, ast.Name):
                 out.add(n.value.id)
@@ -228,6 +234,13 @@ class Enumerator:
                 recv = self.val(n.func.value, p.env)
                 args = tuple(self.val(a, p.env) for a in n.args)
                 p.steps.append(('E', 'call:' + n.func.attr, recv, args, node))
+            elif isinstance(n, ast.Call) and isinstance(n.func, ast.Name):
+                # a hoisted bound method: add = xs.append ; add(v)
+                t = p.env.get(n.func.id)
+                if isinstance(t, tuple) and t[:1] == ('ATTR',) and len(t) == 3 and t[2] in MUTATORS \
+                        and isinstance(t[1], tuple) and t[1][:1] == ('OBJ',):
+                    args = tuple(self.val(a, p.env) for a in n.args)
+                    p.steps.append(('E', 'call:' + t[2], t[1], args, node))
             if isinstance(n, ast.NamedExpr) and isinstance(n.target, ast.Name):
                 p.env[n.target.id] = self.val(n.value, p.env)
 
@@ -339,8 +352,86 @@ class Enumerator:
             outs.append(after)
         return outs
 
+    # ---- inlining of small helper functions (extract-function refactorings must not blind the rules)
+    def helper_of(self, call, p):
+        if not (isinstance(call, ast.Call) and isinstance(call.func, ast.Name)):
+            return None
+        t = p.env.get(call.func.id, ('VAR', call.func.id))
+        if isinstance(t, tuple) and t[:1] == ('LOCALDEF',) and t[1] in self.local_defs:
+            return self.local_defs[t[1]]
+        if t == ('VAR', call.func.id) and call.func.id in self.helpers:
+            return self.helpers[call.func.id]
+        return None
+
+    def inline(self, call, p):
+        """-> list of (path, return term) or None when the call cannot be inlined"""
+        fn = self.helper_of(call, p)
+        if fn is None or self.inline_depth >= 2:
+            return None
+        a = fn.args
+        if a.vararg or a.kwarg or a.kwonlyargs or call.keywords or len(call.args) != len(a.args) \
+                or any(isinstance(x, ast.Starred) for x in call.args):
+            return None
+        if any(isinstance(n, (ast.Yield, ast.YieldFrom, ast.Nonlocal, ast.Global)) for n in ast.walk(fn)):
+            return None
+        env = dict(p.env)
+        for prm, arg in zip(a.args, call.args):
+            env[prm.arg] = self.val(arg, p.env)
+        self.inline_depth += 1
+        try:
+            saved_mut = self.mutated
+            self.mutated = self.mutated | self.mutated_names(fn)
+            subs = self.block(fn.body, [Path(env, [])])
+            self.mutated = saved_mut
+        finally:
+            self.inline_depth -= 1
+        out = []
+        for sp in subs:
+            q = p.fork()
+            q.steps += sp.steps
+            if sp.end is not None and sp.end[0] == 'raise':
+                q.end = sp.end
+                out.append((q, None))
+            elif sp.end is not None and sp.end[0] == 'return':
+                out.append((q, sp.end[1]))
+            else:
+                out.append((q, ('CONST', 'None')))
+        return out
+
     def stmt(self, st, p):
         T = type(st)
+        # x = A if T else B  /  return A if T else B  behave like if/else
+        if T in (ast.Assign, ast.Return, ast.Expr) and isinstance(getattr(st, 'value', None), ast.IfExp):
+            ie = st.value
+            t, f = self.branch(ie.test, p, st)
+            outs = []
+            for paths_, val in ((t, ie.body), (f, ie.orelse)):
+                for q in paths_:
+                    st2 = ast.copy_location(type(st)(**{**{k: getattr(st, k) for k in st._fields}, 'value': val}), st)
+                    outs += self.stmt(st2, q)
+            return outs
+        if T in (ast.Assign, ast.Expr) and isinstance(st.value, ast.Call):
+            res = self.inline(st.value, p)
+            if res is not None:
+                outs = []
+                for q, ret in res:
+                    if q.end is not None:
+                        outs.append(q)
+                        continue
+                    if T is ast.Assign:
+                        for t in st.targets:
+                            self.assign(t, ret, q, st)
+                    outs.append(q)
+                return outs
+        if T is ast.Return and isinstance(st.value, ast.Call):
+            res = self.inline(st.value, p)
+            if res is not None:
+                outs = []
+                for q, ret in res:
+                    if q.end is None:
+                        q.end = ('return', ret, st)
+                    outs.append(q)
+                return outs
         if T is ast.Expr:
             if isinstance(st.value, ast.Constant):
                 return [p]
@@ -395,6 +486,8 @@ class Enumerator:
         if T is ast.Pass:
             return [p]
         if T in (ast.FunctionDef, ast.ClassDef):
+            if T is ast.FunctionDef:
+                self.local_defs[st.name] = st
             p.env[st.name] = ('LOCALDEF', st.name)
             p.steps.append(('E', 'def', st.name, ('LOCALDEF', st.name), st))
             return [p]
